@@ -61,6 +61,9 @@ func (e *Env) AddCase(kind, id, term string, replay interface{}) {
 	e.shardIDs = append(e.shardIDs, id)
 	if replay != nil {
 		e.replays[id] = replay
+		if len(e.rep.Samples) < 3 {
+			e.rep.Samples = append(e.rep.Samples, replay)
+		}
 	}
 }
 
